@@ -765,8 +765,8 @@ func ruleWR6(c *Ctx) {
 		}
 		splitFns := map[*ssa.Function]bool{}
 		for _, call := range callsNamed(rd, "(*bufio.Scanner).Split") {
-			if mc, ok := resolve(call.Common().Args[1]).(*ssa.MakeClosure); ok {
-				splitFns[mc.Fn.(*ssa.Function)] = true
+			for _, f := range funcValuesOf(call.Common().Args[1], 0) {
+				splitFns[f] = true
 			}
 		}
 		if len(flagCells) == 0 {
